@@ -57,17 +57,18 @@ type reqRec struct {
 	BodyLen int
 	Chunked bool
 
-	gate      chan bool // value: Done() was already observed closed by the harness when the gate was released
-	fallback  chan struct{}
-	fbOnce    sync.Once
-	startedCh chan struct{}
-	started   atomic.Bool
-	ended     atomic.Bool
-	doneSeen  atomic.Bool // handler saw Done() closed
-	doneMiss  atomic.Bool // handler released after shutdown began, Done() still open
-	viaFB     atomic.Bool
-	cyc       *cycle
-	afterShut atomic.Bool // handler started although this cycle's Shutdown had already returned nil
+	gate       chan bool // value: Done() was already observed closed by the harness when the gate was released
+	fallback   chan struct{}
+	fbOnce     sync.Once
+	startedCh  chan struct{}
+	started    atomic.Bool
+	ended      atomic.Bool
+	doneSeen   atomic.Bool // handler saw Done() closed
+	doneMiss   atomic.Bool // handler released after shutdown began, Done() still open
+	viaFB      atomic.Bool
+	cyc        *cycle
+	hookTarget bool        // the handler publishes its connection so that the ConnState hook can start Shutdown on its StateIdle
+	afterShut  atomic.Bool // handler started although this cycle's Shutdown had already returned nil
 }
 
 func (q *reqRec) wire() string {
@@ -127,7 +128,11 @@ type cycle struct {
 	doneCh <-chan struct{}
 
 	pending      atomic.Int32 // connections obtained by the listener's Accept, not yet returned to Serve
-	shutReturned atomic.Bool  // this cycle's Shutdown returned nil
+	hookConn     atomic.Value // net.Conn of the pipelined connection chosen for the "idlehook" trigger
+	hookOnce     sync.Once
+	hookFired    chan struct{}
+	hookDoneSeen atomic.Bool // Done() was closed before the StateIdle callback returned
+	shutReturned atomic.Bool // this cycle's Shutdown returned nil
 }
 
 type caseCfg struct {
@@ -143,6 +148,7 @@ type cycleCfg struct {
 	Trigger       string   `json:"trigger"`
 	TriggerK      int      `json:"trigger_k"`
 	WaitDone      bool     `json:"release_after_done_closed"`
+	IdleHook      bool     `json:"shutdown_from_stateidle_callback"`
 	SlowAccept    bool     `json:"slow_accept"`
 	AcceptDelayMs int      `json:"accept_delay_ms"`
 	Sits          []string `json:"situations"`
@@ -169,6 +175,31 @@ func (l *slowListener) Accept() (net.Conn, error) {
 		l.cyc.pending.Add(-1)
 	}
 	return c, nil
+}
+
+type connBox struct{ c net.Conn }
+
+// idleHook runs inside Server.ConnState(StateIdle): for the chosen pipelined connection it starts Shutdown
+// asynchronously and returns only once Done() is closed, i.e. shutdown begins between the flush decision
+// after the first response and the stop check at the bottom of the serve loop.
+func (cy *cycle) idleHook(nc net.Conn) {
+	if !cy.cfg.IdleHook {
+		return
+	}
+	b, _ := cy.hookConn.Load().(connBox)
+	if b.c == nil || b.c != nc {
+		return
+	}
+	cy.hookOnce.Do(func() {
+		cy.doneMu.Lock()
+		doneCh := cy.doneCh
+		cy.doneMu.Unlock()
+		cy.fire()
+		if doneCh != nil && waitCh(doneCh, doneWait()) {
+			cy.hookDoneSeen.Store(true)
+		}
+		close(cy.hookFired)
+	})
 }
 
 func (cy *cycle) fire() { cy.trigOnce.Do(func() { close(cy.trigCh) }) }
@@ -206,6 +237,9 @@ func (k *kase) handler(ctx *fasthttp.RequestCtx) {
 		q.afterShut.Store(true)
 	}
 	q.started.Store(true)
+	if q.hookTarget {
+		q.cyc.hookConn.Store(connBox{ctx.Conn()})
+	}
 	close(q.startedCh)
 	q.cyc.bump("hstart")
 	switch q.Kind {
@@ -444,7 +478,7 @@ func runCase(r *mon.Run, i int) {
 	}
 	var cycles []*cycle
 	for cn := 0; cn < ncycles; cn++ {
-		cy := &cycle{k: k, n: cn, trigCh: make(chan struct{}),
+		cy := &cycle{k: k, n: cn, trigCh: make(chan struct{}), hookFired: make(chan struct{}),
 			counts: map[string]*atomic.Int32{"new": {}, "active": {}, "idle": {}, "hstart": {}, "hend": {}}}
 		cc := cycleCfg{Listeners: 1 + rnd.Intn(2), WithContext: rnd.Intn(4) == 0, Trigger: triggers[rnd.Intn(len(triggers))], WaitDone: rnd.Intn(3) != 0}
 		cc.SlowAccept = rnd.Intn(4) == 0
@@ -507,6 +541,21 @@ func runCase(r *mon.Run, i int) {
 			cc.Sits = append(cc.Sits, c.Sit)
 			cy.clients = append(cy.clients, c)
 		}
+		if !cc.SlowAccept && rnd.Intn(6) == 0 {
+			// Shutdown begins inside the StateIdle callback of a pipelined connection whose first
+			// request is answered (not flushed yet) and whose second request is already buffered
+			cc.IdleHook = true
+			cc.Trigger = "idlehook"
+			c := newClient(nconn, "pipe")
+			k2 := "fast"
+			if rnd.Intn(2) == 0 {
+				k2 = "gated"
+			}
+			c.reqs = []*reqRec{newReq(nconn, 0, "pipe1", "fast"), newReq(nconn, 1, "pipe2", k2)}
+			c.reqs[0].hookTarget = true
+			cc.Sits = append(cc.Sits, "pipe")
+			cy.clients = append(cy.clients, c)
+		}
 		if cc.SlowAccept {
 			c := newClient(nconn, "accdelay")
 			kind := []string{"fast", "fast", "gated", "donewait"}[rnd.Intn(4)]
@@ -525,7 +574,7 @@ func runCase(r *mon.Run, i int) {
 	if cfg.IdleTimeout {
 		s.IdleTimeout = time.Hour
 	}
-	s.ConnState = func(_ net.Conn, st fasthttp.ConnState) {
+	s.ConnState = func(nc net.Conn, st fasthttp.ConnState) {
 		switch st {
 		case fasthttp.StateNew:
 			k.bump("new")
@@ -533,6 +582,9 @@ func runCase(r *mon.Run, i int) {
 			k.bump("active")
 		case fasthttp.StateIdle:
 			k.bump("idle")
+			if cy := k.cur.Load(); cy != nil {
+				cy.idleHook(nc)
+			}
 		}
 	}
 	k.s = s
@@ -691,6 +743,16 @@ func runCycle(k *kase, cy *cycle, rnd *rand.Rand) (ok, nontrivial bool, class st
 		go delayed.run()
 		if !waitCh(delayed.ready, watchdog) {
 			stalled = "client behind the delayed Accept not ready"
+		}
+	}
+	if cfg.IdleHook {
+		if waitCh(cy.hookFired, 10*time.Second) {
+			r.Event("idlehook_cycles_shutdown_started_in_stateidle_callback", 1)
+			if cy.hookDoneSeen.Load() {
+				r.Event("idlehook_done_closed_before_callback_returned", 1)
+			}
+		} else {
+			r.Event("idlehook_not_reached", 1)
 		}
 	}
 	cy.fire()
@@ -901,6 +963,11 @@ func runCycle(k *kase, cy *cycle, rnd *rand.Rand) (ok, nontrivial bool, class st
 					// or silent for 5 s) while closeIdleConns was closing it
 					key = "response-lost-late-request"
 				}
+				if q.hookTarget && cy.hookDoneSeen.Load() {
+					// shutdown began inside the StateIdle callback, i.e. after the flush decision for this
+					// response and before the stop check at the bottom of the serve loop
+					key = "response-lost-pipe1-stop-inside-idle-callback"
+				}
 				if c.Sit == "pipe" && c.reqs[1].started.Load() {
 					// the connection went on to the second pipelined request, so it was not the
 					// stop check after the first response that dropped it: the connection was cut
@@ -983,6 +1050,240 @@ func runCycle(k *kase, cy *cycle, rnd *rand.Rand) (ok, nontrivial bool, class st
 	return
 }
 
+// ---- aged-connection family (the 5-second rule) ----------------------------------------------
+//
+// closeIdleConns regards a fresh connection that has not sent a byte for 5 s as idle. These cases
+// open their silent connections when the test process starts (the 5 s pass while the regular cases
+// run); later every such connection sends its first request concurrently with a Shutdown call.
+
+type agedCase struct {
+	idx       int
+	k         *kase
+	cy        *cycle
+	clients   []*client
+	serveDone chan struct{}
+	serveErr  error
+	dialed    time.Time
+	setupErr  string
+	cfg       map[string]any
+}
+
+// agedPhase widens the window between "first byte read" and "connection marked active" at srv.firstByte.
+var agedPhase atomic.Bool
+var agedTick atomic.Uint32
+
+func agedOnPoint(name string) {
+	if name == "srv.firstByte" && agedPhase.Load() {
+		n := agedTick.Add(1)
+		time.Sleep(time.Duration(3+(n*7919)%28) * time.Millisecond)
+	}
+}
+
+func setupAged(r *mon.Run, idx int) *agedCase {
+	rnd := r.Rand("aged", idx)
+	a := &agedCase{idx: idx, serveDone: make(chan struct{})}
+	k := &kase{r: r, idx: idx, reqs: map[string]*reqRec{}}
+	cy := &cycle{k: k, trigCh: make(chan struct{}), hookFired: make(chan struct{}), counts: map[string]*atomic.Int32{}}
+	cy.cfg = cycleCfg{Listeners: 1, Trigger: "aged", WithContext: rnd.Intn(4) == 0}
+	a.k, a.cy = k, cy
+	rmu, cos := rnd.Intn(2) == 0, rnd.Intn(3) == 0
+	nc := 1 + rnd.Intn(4)
+	a.cfg = map[string]any{"family": "aged-silent-connections", "reduce_memory_usage": rmu, "close_on_shutdown": cos, "connections": nc, "shutdown_with_context": cy.cfg.WithContext}
+	for ci := 0; ci < nc; ci++ {
+		q := &reqRec{ID: fmt.Sprintf("c%d-aged-k%d", idx, ci), Role: "aged-silent", Kind: "fast", BodyLen: bodyLen(rnd), Chunked: rnd.Intn(6) == 0,
+			gate: make(chan bool, 1), fallback: make(chan struct{}), startedCh: make(chan struct{}), cyc: cy}
+		k.reqs[q.ID] = q
+		a.clients = append(a.clients, &client{cyc: cy, Idx: ci, Sit: "aged", reqs: []*reqRec{q}, notify: make(chan struct{}, 1), eofCh: make(chan struct{})})
+	}
+	s := &fasthttp.Server{Handler: k.handler, Logger: nolog{}, ReduceMemoryUsage: rmu, CloseOnShutdown: cos, NoDefaultServerHeader: true, MaxIdleWorkerDuration: 20 * time.Millisecond}
+	k.s = s
+	k.cur.Store(cy)
+	ln := &slowListener{InmemoryListener: fasthttputil.NewInmemoryListener(), cyc: cy}
+	cy.lns = []*slowListener{ln}
+	go func() { defer close(a.serveDone); a.serveErr = s.Serve(ln) }()
+	ok := mon.Watchdog(watchdog, func() {
+		c, err := ln.Dial()
+		if err != nil {
+			return
+		}
+		c.Write([]byte("GET /warm HTTP/1.1\r\nHost: w\r\nConnection: close\r\n\r\n"))
+		var resp fasthttp.Response
+		resp.Read(bufio.NewReader(c))
+		c.Close()
+		for _, cl := range a.clients {
+			if cl.conn, cl.dialErr = ln.Dial(); cl.dialErr != nil {
+				a.setupErr = "dial failed"
+				return
+			}
+			go cl.reader()
+		}
+	})
+	if !ok {
+		a.setupErr = "setup stalled"
+	}
+	a.dialed = time.Now()
+	return a
+}
+
+func runAged(r *mon.Run, a *agedCase) {
+	i, k, cy, s := a.idx, a.k, a.cy, a.k.s
+	rnd := r.Rand("aged-run", i)
+	fail := func(why string) { r.Inconclusive(fmt.Sprintf("aged case %d: %s", i, why)) }
+	viol := func(key, what string) { r.Violation(i, key, what, a.cfg) }
+	cleanup := func() {
+		for _, c := range a.clients {
+			if c.conn != nil {
+				c.conn.Close()
+			}
+		}
+		cy.lns[0].Close()
+	}
+	cy.doneMu.Lock()
+	doneCh := cy.doneCh
+	cy.doneMu.Unlock()
+	if a.setupErr != "" || doneCh == nil {
+		fail("setup: " + a.setupErr)
+		cleanup()
+		return
+	}
+	age := time.Since(a.dialed)
+	type shutRes struct {
+		err  error
+		done time.Time
+	}
+	shutCh := make(chan shutRes, 1)
+	var inflightAtReturn atomic.Int32
+	var wg sync.WaitGroup
+	spin := func(n int) {
+		for j := 0; j < n; j++ {
+			runtime.Gosched()
+		}
+	}
+	// the Shutdown call and the first requests of the aged connections race each other
+	nShut := rnd.Intn(40)
+	shutNap := time.Duration(0)
+	switch rnd.Intn(4) {
+	case 0:
+		shutNap = time.Duration(rnd.Intn(40)) * time.Millisecond // some requests are served before Shutdown starts
+	case 1:
+		shutNap = time.Duration(rnd.Intn(2000)) * time.Microsecond
+	}
+	go func() {
+		spin(nShut)
+		time.Sleep(shutNap)
+		var err error
+		if cy.cfg.WithContext {
+			ctx, cancel := context.WithTimeout(context.Background(), 10*time.Minute)
+			err = s.ShutdownWithContext(ctx)
+			cancel()
+		} else {
+			err = s.Shutdown()
+		}
+		if err == nil {
+			cy.shutReturned.Store(true)
+		}
+		inflightAtReturn.Store(k.inflight.Load())
+		shutCh <- shutRes{err, time.Now()}
+	}()
+	for _, c := range a.clients {
+		c := c
+		n := rnd.Intn(20)
+		nap := time.Duration(0)
+		if rnd.Intn(5) == 0 {
+			nap = time.Duration(rnd.Intn(3000)) * time.Microsecond
+		}
+		wg.Add(1)
+		go func() {
+			defer wg.Done()
+			spin(n)
+			time.Sleep(nap)
+			_, c.lateErr = c.conn.Write([]byte(c.reqs[0].wire()))
+		}()
+	}
+	wg.Wait()
+	tRelease := time.Now()
+	var res shutRes
+	select {
+	case res = <-shutCh:
+	case <-time.After(slackHang):
+		viol("shutdown-hang", fmt.Sprintf("Shutdown has not returned %v after the aged connections sent their requests (open=%d)\n%s", slackHang, s.GetOpenConnectionsCount(), mon.Stacks()))
+		cleanup()
+		return
+	}
+	if d := res.done.Sub(tRelease); d > slackOK {
+		fail(fmt.Sprintf("Shutdown returned %v after the last request was sent: slow", d))
+	}
+	if res.err != nil {
+		r.Event("skipped_shutdown_error", 1)
+		cleanup()
+		return
+	}
+	r.Event("shutdown_returned_nil", 1)
+	r.Event("aged_cases", 1)
+	if n := inflightAtReturn.Load(); n != 0 {
+		viol("handler-running-after-shutdown", fmt.Sprintf("%d request handler(s) were between start and end when Shutdown returned nil", n))
+	}
+	var derr error
+	if dok := mon.Watchdog(closeGrace, func() {
+		var c net.Conn
+		if c, derr = cy.lns[0].Dial(); c != nil {
+			c.Close()
+		}
+	}); !dok || derr == nil {
+		viol("listener-open-after-shutdown", "listener still takes connections after Shutdown returned nil")
+	}
+	r.Event("listeners_probed", 1)
+	if !waitCh(a.serveDone, closeGrace) {
+		viol("serve-not-returned", fmt.Sprintf("Serve has not returned %v after Shutdown returned nil", closeGrace))
+	} else {
+		r.Event("serve_returned", 1)
+	}
+	started, matched, refused := 0, 0, 0
+	for _, c := range a.clients {
+		q := c.reqs[0]
+		closed := waitCh(c.eofCh, closeGrace)
+		if age >= 5*time.Second {
+			r.Event("aged_conns_silent_for_5s", 1)
+		}
+		if q.afterShut.Load() {
+			viol("handler-started-after-shutdown", fmt.Sprintf("the handler of %s started after Shutdown had returned nil", q.ID))
+		}
+		if !q.started.Load() {
+			refused++
+			if c.lateErr == nil {
+				// the request went into the connection before it was closed, the server did not start it
+				r.Event("aged_requests_written_but_not_started", 1)
+			}
+			continue
+		}
+		started++
+		if !q.ended.Load() {
+			continue
+		}
+		buf := c.snapshot()
+		m := responseFor(buf, q.ID)
+		switch {
+		case m == nil && !closed:
+			fail(fmt.Sprintf("client %d has no response for %s but its connection is still open", c.Idx, q.ID))
+		case m == nil:
+			viol("response-lost-aged-first-request", fmt.Sprintf("connection %d had been open and silent for %v (>= 5 s: idle for closeIdleConns); its first request %s was sent while Shutdown was being called; the handler started and ended, Shutdown returned nil, but the client did not receive a complete response (read %d bytes: %s)", c.Idx, age.Round(time.Millisecond), q.ID, len(buf), mon.Short(buf, 120)))
+		case string(m.Body) != q.wantBody() || m.Status != 200:
+			viol("response-corrupt", fmt.Sprintf("request %s: status %d, body %s", q.ID, m.Status, mon.Short(m.Body, 80)))
+		default:
+			matched++
+		}
+	}
+	r.Event("handlers_started", started)
+	r.Event("responses_matched", matched)
+	r.Event("aged_requests_handler_started", started)
+	r.Event("aged_requests_not_started", refused)
+	cleanup()
+	r.Case(fmt.Sprintf("aged|rmu=%v|cos=%v|n=%d|started=%d|refused=%d|old=%v", a.cfg["reduce_memory_usage"], a.cfg["close_on_shutdown"], len(a.clients), started, refused, age >= 5*time.Second), age >= 5*time.Second)
+	if r.EventCount("aged_cases") <= 1 {
+		r.Sample(map[string]any{"config": a.cfg, "silent_for_ms": age.Milliseconds(), "handlers_started": started, "requests_not_started": refused, "responses_matched": matched})
+	}
+}
+
 func TestC15(t *testing.T) {
 	r := mon.Start(t, "C15")
 	defer r.Finish()
@@ -992,21 +1293,40 @@ func TestC15(t *testing.T) {
 	r.Assume("'response written' is observed at the client: a complete response (independent h1 framing) carrying the request's unique id and exact body must have been read from the connection")
 	r.Assume("bounded liveness: Shutdown returning later than 4.1 s (100 ms ticker + 4 s slack) after the last gate release is inconclusive, later than 41 s (or never) with all gates released is shutdown-hang; server-side close of connections and the return of Serve are awaited for 10 s after Shutdown returned")
 	r.Assume("'Serve has returned' is judged strictly only through the listener wrapper (Shutdown returned nil while Accept still held a connection for Serve) and through handlers that stamp their own start after Shutdown's return; otherwise Serve is given 10 s to return")
+	r.Assume("aged family: connections opened when the test process starts and silent for >= 5 s (wall clock only to let the server's own 5-second rule apply); during that family srv.firstByte additionally sleeps 3-30 ms to widen the window between reading the first byte and marking the connection active")
 	r.Assume("the explored interleavings are those produced by the perturber and the scheduler on this machine, not all interleavings")
 	p := sched.New(r.Seed()*7919 + 15)
 	p.Intensity = 40
 	p.MaxSleep = 2 * time.Millisecond
 	p.Only = map[string]bool{"srv.shutdown.tick": true, "srv.beforeHandler": true, "srv.afterHandler": true, "srv.beforeWrite": true, "srv.accepted": true, "srv.firstByte": true,
 		"wp.serve.beforesend": true, "wp.release.enter": true, "wp.stop.enter": true}
+	p.OnPoint = agedOnPoint
 	p.Install()
 	defer sched.Uninstall()
 	n := r.N(600, 30_000)
+	nAged := r.N(80, 2_000)
+	// the aged family opens its silent connections now; they are used after the regular cases
+	aged := make([]*agedCase, nAged)
+	mon.Parallel(nAged, 0, func(j int) {
+		if r.Want(n + j) {
+			aged[j] = setupAged(r, n+j)
+		}
+	})
+	agedReady := time.Now().Add(5200 * time.Millisecond)
 	mon.Parallel(n, 2*runtime.GOMAXPROCS(0), func(i int) {
 		if !r.Want(i) {
 			return
 		}
 		runCase(r, i)
 	})
+	time.Sleep(time.Until(agedReady)) // not an oracle: only lets the 5-second rule apply to the aged connections
+	agedPhase.Store(true)
+	mon.Parallel(nAged, 2*runtime.GOMAXPROCS(0), func(j int) {
+		if aged[j] != nil {
+			runAged(r, aged[j])
+		}
+	})
+	agedPhase.Store(false)
 	hits := p.Hits()
 	r.Set("hook_hits", hits)
 	for _, name := range []string{"srv.shutdown.tick", "srv.beforeHandler", "srv.afterHandler", "srv.beforeWrite", "srv.accepted"} {
@@ -1023,6 +1343,10 @@ func TestC15(t *testing.T) {
 		r.Require("slow_accept_shutdown_called_while_accept_pending", n/10)
 		r.Require("slow_accept_requests_answered", n/20)
 		r.Require("later_cycles_completed", n/5)
+		r.Require("idlehook_done_closed_before_callback_returned", n/20)
+		r.Require("aged_conns_silent_for_5s", nAged)
+		r.Require("aged_requests_handler_started", 1)
+		r.Require("aged_requests_written_but_not_started", nAged/4)
 		r.Require("later_cycle_done_observed_closed_in_handler", n/5)
 	}
 }
